@@ -173,6 +173,29 @@ def run_case(case, workdir):
                 elif not same(val, exp):
                     shp = [getattr(v, "shape", None) for v in val] if isinstance(val, list) else getattr(val, "shape", None)
                     rec.fail("values", sub, "wrong data; got shape %s" % (shp,))
+    # multi-box selections under every order of the per-box read tasks (the result must stay in requested order)
+    from .. import explorer
+    for lv in range(ref.nlevels):
+        nb = len(ref.boxes[lv])
+        if not (2 <= nb <= 4) or (case.get("boxes_only") and lv != case.get("devlevel")):
+            continue
+        for btag, bsel in ((["slice", None, None, None], list(range(nb))), (["list", list(range(nb))[::-1]], list(range(nb))[::-1]),
+                           (["maskarr", [True] * nb], list(range(nb)))):
+            exp = expected(ref, lv, slice(None), bsel)
+
+            def run(plan):
+                with vpool.controlled(plan) as ctl:
+                    r = call(lambda: pck[:][lv][S.decode(btag)])
+                return ctl, r
+            for plan, ctl, (st, val) in explorer.explore(run, bound=1):
+                if not plan:
+                    continue
+                rec.exe([dh, "sched", lv, btag, explorer.plan_json(plan)], nontrivial=True, trans=sum(c["n"] for c in ctl.calls))
+                sub = {"field": ["slice", None, None, None], "level": lv, "box": btag, "class": "A", "plan": explorer.plan_json(plan)}
+                if st == "exc":
+                    rec.fail("raised", sub, exc_text(val))
+                elif not same(val, exp):
+                    rec.fail("values", sub, "wrong data under this task order")
     rec.sample({"desc": desc, "selection": "pck[field_sel][level][box_sel] over the selector alphabets"})
     return rec.result()
 
